@@ -28,7 +28,7 @@ type c19Reg struct {
 // behaviours: a Go function and a jq BODY with the same input/output relation
 var (
 	c19PlainBehs = []string{"all", "first", "last", "self", "cnt", "obj", "verr", "verr0", "perr"}
-	c19IterBehs  = []string{"each", "selfeach", "none", "mid", "one", "twice"}
+	c19IterBehs  = []string{"each", "selfeach", "none", "mid", "one", "twice", "fixed"}
 )
 
 type c19ValErr struct{ v any }
@@ -109,6 +109,9 @@ func c19GoIter(beh string) func(any, []any) gojq.Iter {
 			return &c19SliceIter{xs: xs}
 		case "one":
 			return gojq.NewIter(v)
+		case "fixed":
+			// a fixed stream kept by the callback's owner and handed to the library's slice iterator on every call
+			return gojq.NewIter(c19Fixed...)
 		case "twice":
 			x := append([]any{v}, args...)
 			return gojq.NewIter[any](x, x)
@@ -116,6 +119,10 @@ func c19GoIter(beh string) func(any, []any) gojq.Iter {
 		panic("c19GoIter: " + beh)
 	}
 }
+
+var c19Fixed = c19FixedPristine()
+
+func c19FixedPristine() []any { return []any{1, "two", []any{3}, nil, false} }
 
 // c19Body is the jq BODY equivalent to behaviour beh at arity n, over $a0…
 func c19Body(beh string, n int) string {
@@ -158,6 +165,8 @@ func c19Body(beh string, n int) string {
 		return strings.Join(append([]string{"."}, as...), ", ")
 	case "none":
 		return "empty"
+	case "fixed":
+		return `1, "two", [3], null, false`
 	case "mid":
 		xs := []string{}
 		if n > 0 {
@@ -408,6 +417,7 @@ const c19SigD7 = "native-arg-path-tracking"
 
 var kC19CB = run.NewKind("c19.cbdef", func(c *run.Ctx, t c19CBCase) *run.Fail {
 	const budget = 30000
+	copy(c19Fixed, c19FixedPristine())
 	opts := c19Opts(t.Regs)
 	defs := c19Defs(t.Regs)
 	plain := c19Render(t.Prog, false)
@@ -594,6 +604,8 @@ var c19ArgExprs = []string{
 	"(1, 2)", "range(2)", "empty", "(.[]?, 9)", "(null, 1)", "(.a?, .b?)",
 	`error("e")`, `(1, error("e"))`, "error", `(1, 2, error({"v": 1}))`, "error(null)", `(error("e")?)`,
 	"$v", "[$v, .]", "(label $q | 1, break $q, 2)", "reduce .[]? as $x (0; . + 1)", "limit(1; .[]?)", `try error("x") catch .`, "(1 as $x | 2 as $y | [$x, $y, $v])",
+	// bare calls of parameterless jq functions (defined in the program prefix, or builtins the prefix has already used)
+	"ka", "kz", "kgen", "first", "last", "first?", "(ka | kz)", "recurse", "not", "values", "ka", "kz",
 	"[paths]", "path(.a?)", "(.a? |= 3)", "del(.a?)", "[.[]?] | length", "(. as $d | $d)", "if . == null then 1 else . end", "(.a? // \"d\")", ".. | numbers", "tojson", "[limit(2; repeat(1))]",
 }
 
@@ -698,6 +710,10 @@ func c19GenRegs(r *rand.Rand) []c19Reg {
 	return regs
 }
 
+// c19Prefix defines the parameterless functions used as arguments and uses a few builtins once, so that later bare calls
+// of them meet an already compiled definition.
+const c19Prefix = `def ka: .a?; def kz: .[0]?; def kgen: (.a?, .b?); "V" as $v | ([first?, last?, (.. | 0), (values | 0), (recurse | 0), not] | 0) as $u0 | `
+
 func c19GenCB(r *rand.Rand, inputs []any) c19CBCase {
 	regs := c19GenRegs(r)
 	g := &c19CBGen{r: r, regs: regs, eff: c19Effective(regs)}
@@ -707,7 +723,7 @@ func c19GenCB(r *rand.Rand, inputs []any) c19CBCase {
 		hasArgs = hasArgs || strings.Contains(s, c19Open)
 		return s
 	})
-	return c19CBCase{Regs: regs, Prog: `"V" as $v | ` + src, Input: run.TV{V: inputs[r.IntN(len(inputs))]}, PathCtx: (path && hasArgs) || g.path}
+	return c19CBCase{Regs: regs, Prog: c19Prefix + src, Input: run.TV{V: inputs[r.IntN(len(inputs))]}, PathCtx: (path && hasArgs) || g.path}
 }
 
 func c19BodyCBDef(c *run.Ctx) {
@@ -726,8 +742,8 @@ func c19BodyCBDef(c *run.Ctx) {
 				regs := []c19Reg{{Name: "f", Min: lo, Max: hi, Iter: iter, Beh: beh}}
 				g := &c19CBGen{r: r, regs: regs, eff: c19Effective(regs)}
 				call := g.callN("f", n, 1)
-				kC19CB.Do(c, c19CBCase{Regs: regs, Prog: `"V" as $v | [` + call + "]", Input: run.TV{V: inputs[r.IntN(len(inputs))]}, PathCtx: g.path})
-				kC19CB.Do(c, c19CBCase{Regs: regs, Prog: `"V" as $v | [.[]? | try ` + call + " catch .]", Input: run.TV{V: inputs[r.IntN(len(inputs))]}, PathCtx: g.path})
+				kC19CB.Do(c, c19CBCase{Regs: regs, Prog: c19Prefix + "[" + call + "]", Input: run.TV{V: inputs[r.IntN(len(inputs))]}, PathCtx: g.path})
+				kC19CB.Do(c, c19CBCase{Regs: regs, Prog: c19Prefix + "[.[]? | try " + call + " catch .]", Input: run.TV{V: inputs[r.IntN(len(inputs))]}, PathCtx: g.path})
 			}
 		}
 	}
